@@ -206,7 +206,7 @@ Step ==
           [] ins.cl = "vec" ->
                LET ra == Read(s, ins.a, ins.w, ln)
                    rc == IF ins.c.k = "n" THEN <<Unk, ra[2]>> ELSE Read(ra[2], ins.c, ins.w, ln)
-                   zero == ins.a.k = "v" /\ ins.c.k = "v" /\ ins.a.r = ins.c.r /\ ins.fn \in {"VPXORD", "VPXORQ", "VEOR"}
+                   zero == ins.a.k = "v" /\ ins.c.k = "v" /\ ins.a.r = ins.c.r /\ ins.fn \in {"VPXORD", "VPXORQ", "VEOR", "PXOR", "VPXOR"}
                    t == IF zero THEN "pub" ELSE JoinT(Taint(ra[1]), Taint(rc[1]))
                    val == IF t = "sec" THEN Sec ELSE IF t = "undef" THEN Undef ELSE Unk
                    s2 == IF t = "undef" THEN Err(rc[2], ln, "NOTE read of a register the routine has not written") ELSE rc[2]
